@@ -245,6 +245,27 @@ func TestGovcBoundedC03Mirror(t *testing.T) {
 			fmt.Printf("GOVC-FAIL name=c03-rejection %s, accepted: %s\n", f.what, f.text)
 		}
 	}
+	// the same faults on a set that has just refused other texts (texts that are refused only
+	// after namespace, prefix, type, belongs-to ... have been seen): what a refused text leaves
+	// behind must not make up for what the next one lacks
+	{
+		ms := NewModules()
+		for _, refused := range []string{
+			"module r1 { namespace \"urn:r1\"; prefix r1; leaf a { type string; } import o { prefix o; } bogus x; }",
+			"submodule r2 { belongs-to r1 { prefix r1; } leaf b { type string; bogus y; } }",
+			"module r3 { namespace \"urn:r3\"; prefix r3; import o { prefix o; bogus z; } }",
+		} {
+			if err := ms.Parse(refused, "refused.yang"); err == nil {
+				fmt.Printf("GOVC-FAIL name=c03-rejection accepted: %s\n", refused)
+			}
+		}
+		for _, f := range faults {
+			evals++
+			if err := ms.Parse(f.text, "fault.yang"); err == nil {
+				fmt.Printf("GOVC-FAIL name=c03-rejection %s, accepted by a set that refused other texts before: %s\n", f.what, f.text)
+			}
+		}
+	}
 	// every keyword under every statement that has no place for it: starting from the module
 	// node type, the node types are explored through their tagged fields; for each type P (reached
 	// by a chain of keywords from module) and each keyword K of the whole vocabulary that P has
@@ -304,6 +325,24 @@ func TestGovcBoundedC03Mirror(t *testing.T) {
 		words = append(words, k)
 	}
 	sortStringsC03(words)
+	// words that are no keyword of any statement: the names of the fields every node has (the
+	// builder keeps their setters in the table of keyword builders), a plain unknown word,
+	// and keywords with a colon but an empty prefix or an empty name
+	nonWords := []string{"Name", "Statement", "Parent", "Ext", "no-such-keyword", ":x", "x:", ":"}
+	words = append(words, nonWords...)
+	for _, k := range nonWords {
+		for _, text := range []string{
+			"module m { namespace \"urn:m\"; prefix m; " + k + " x; }",
+			"submodule s { belongs-to m { prefix m; } " + k + " x; }",
+			"module m { namespace \"urn:m\"; prefix m; rpc r { input { " + k + " foo; } } }",
+			"module m { namespace \"urn:m\"; prefix m; container \"\" { " + k + " zed; } }",
+		} {
+			evals++
+			if err := NewModules().Parse(text, "nw.yang"); err == nil {
+				fmt.Printf("GOVC-FAIL name=c03-rejection %q is not a keyword, accepted: %s\n", k, text)
+			}
+		}
+	}
 	// mk writes the statement for a keyword chain with everything its nodes require
 	var mkReq func(t reflect.Type, depth int, skip string) string
 	mkReq = func(t reflect.Type, depth int, skip string) string {
